@@ -58,10 +58,10 @@ def main():
                 kept = 0
                 for l in viol:
                     path = l.split('replay=', 1)[-1].strip()
-                    if kept >= 2 or not os.path.exists(path) or not path.endswith('.tape'):
+                    if kept >= 2 or not os.path.exists(path) or not path.endswith('.tape') or '/corpus/' in path:
                         continue
                     txt = open(path).read()
-                    if 'config=c17_matrix' in txt or 'config=absence' in txt:
+                    if 'config=c17_matrix' in txt or 'config=absence' in txt or 'config=bfs_' in txt:
                         continue
                     dst = os.path.join(VERIF, 'corpus', 'regress', p)
                     os.makedirs(dst, exist_ok=True)
